@@ -135,6 +135,7 @@ REG.contract('Config.parse_instrument_config', world=config_world, params={}, fi
                        ('one-observation-per-entry', c.result[2].n == c.o.self.instrument['telescope']['observations'].n)],
     raises={'KeyError': dict(when=None, unchanged=False)},
     modifies=['heap:Observation.' + f for f in OBS_FIELDS],
+    result='tuple:num,dict:str->ref:PipelineSpec,list:Observation,num',
     props=['C16'])
 REG.loop('Config.parse_instrument_config', 0, inv=instr_inv, body=instr_body,
          modifies_locals=['observation', 'name', 'workflow_path', 'ingest_demand', 'min_resources', 'max_resources', 'o'],
